@@ -515,7 +515,10 @@ def run_c13(ctx):
     S = Sym(prog, f)
     sw = tables.first_switch(f)
     if sw is None:
-        ctx.anchor_missing("TRUTH", "branch in Value::from_bool")
+        # branch-free spelling: Value::Int(i32::from(b)) / Value::Int(b as i32); a bool converts to exactly 1 or 0
+        r0 = S.local(0)
+        ctx.check(re.fullmatch(r"internal::value::Value::Int\{\(p1 as i32\)\}", r0) is not None, "TRUTH", "from_bool", "Int(b as i32)",
+                  "from_bool computes %s, neither the true->Int(1)/false->Int(0) branch nor Int(b as i32)" % r0, f.loc(), fn=f.name)
     else:
         tab, discr = tables.switch_table(prog, f)
         t_arm = tab.get("otherwise")
@@ -559,6 +562,16 @@ def run_c13(ctx):
                             if o.get("k") == "const" and "int" in o and not st["lhs"]["p"] and tgt in derived_locals(ev, {st["lhs"]["l"]}):
                                 consts.append(o["int"])
             ok = ok and sorted(set(consts)) == [0 if name == "And" else 1]
+            # the right operand's value is normalised: eval(right) -> to_bool -> from_bool (never returned raw)
+            d1 = derived_locals(ev, {rec[1][1]["dest"]["l"]})
+            tbs = [tt for b, tt in ev.calls() if b in blks and cname(prog, tt).endswith("Value::to_bool") and any(a.get("pl") and a["pl"]["l"] in d1 for a in tt["args"])]
+            norm = False
+            for tt in tbs:
+                d2 = derived_locals(ev, {tt["dest"]["l"]})
+                if any(a.get("pl") and a["pl"]["l"] in d2 for b, ft in fb for a in ft["args"]):
+                    norm = True
+            ok = ok and norm
+            detail += "; right operand normalised through to_bool/from_bool: %s" % norm
             detail = "second operand under to_bool(left) == %s; constant result %s" % (want_truth, consts)
         ctx.check(ok, "SHORT", "Ast::%s" % name, detail,
                   "Ast::%s does not have the documented short-circuit shape (%d recursive evals, %d from_bool; %s)" % (name, len(rec), len(fb), detail),
